@@ -67,6 +67,30 @@ func (st *State) callAPI(fn *ssa.Function, a []Value, caller *frame) Value {
 	case "Known":
 		st.known = append(st.known, knownClass{Label: constStr(st, a[0]), Cond: asTerm(st, a[1])})
 		return nil
+	case "GuardMap":
+		m, ok := a[0].(Iface)
+		if !ok || m.T == nil {
+			return nil
+		}
+		mr, ok := m.V.(MapRef)
+		if !ok || mr.O == nil {
+			return nil
+		}
+		mu := a[1].(Iface).V.(Ptr)
+		if st.guards == nil {
+			st.guards = map[*Obj]guardInfo{}
+		}
+		st.guards[mr.O] = guardInfo{lockKey: ptrKey(mu), label: constStr(st, a[2])}
+		return nil
+	case "KnownFor":
+		kc := knownClass{Label: constStr(st, a[0]), Cond: asTerm(st, a[1])}
+		if sl, ok := a[2].(Slice); ok {
+			for _, e := range st.sliceElems(sl) {
+				kc.Only = append(kc.Only, constStr(st, e))
+			}
+		}
+		st.known = append(st.known, kc)
+		return nil
 	case "And":
 		return term.MkAnd(asTerm(st, a[0]), asTerm(st, a[1]))
 	case "Or":
@@ -182,9 +206,20 @@ func (st *State) unsafeBuiltin(fn *ssa.Builtin, a []Value) (Value, bool) {
 			st.unsupported("unsafe.String with symbolic pointer")
 		}
 		arr := st.arrayOf(Ptr{O: p.O, Path: p.Path[:len(p.Path)-1]})
-		b := make([]*term.T, n)
-		for i := 0; i < n; i++ {
-			b[i] = asTerm(st, arr.E[last.I+i])
+		b := make([]*term.T, 0, n)
+		for i := last.I; len(b) < n; i++ {
+			if i >= len(arr.E) {
+				st.unsupported("unsafe.String reads past the end of the backing array")
+			}
+			e := asTerm(st, arr.E[i])
+			if e.W == 8 {
+				b = append(b, e)
+				continue
+			}
+			// wider integer elements viewed as bytes (little endian)
+			for k := 0; k < e.W/8 && len(b) < n; k++ {
+				b = append(b, term.MkExtract(k*8+7, k*8, e))
+			}
 		}
 		return StrFromBytes(b), true
 	case "StringData":
